@@ -63,7 +63,7 @@ theorem accounting_run (ns : NsMap) (toks : List Tok) (st st' : St) (h : run ns 
 /-- **T16.2 `spec_render`.** For every selector of the grammar (compounds of optional type / universal
 selector with optional namespace prefix, then id / class / attribute with every operator / pseudo-class /
 functional pseudo with an+b, ident or string arguments / pseudo-element in one- and two-colon form /
-`:not(simple)`, joined by the four combinators) and **every spelling** (white space and comments at every gap,
+`:not(simple)` — the simple selector may itself be a functional pseudo —, joined by the four combinators) and **every spelling** (white space and comments at every gap,
 any letter case and backslash escapes in pseudo names and in `not(`, any quote style, any names), running
 `_prepare_tokens`, the `New` state machine and the post-conditions on the tokenizer's tokens yields a wellformed
 selector with specificity `(0, count)`, item sequence `items` and `element` as written. -/
@@ -116,9 +116,22 @@ theorem specificity_depends_on_skeleton_only (ns₁ ns₂ : NsMap) (s₁ s₂ : 
   simp [Sel.count, hk]
 
 /-- whether `:name` is a pseudo-element (and so counts) depends on the name only up to case and escapes -/
-theorem pseudo_kind_case_insensitive (two : Bool) (n n' : Cps) (h : normalize n = normalize n') :
+theorem pseudo_kind_case_insensitive (two : Bool) (n n' : Cps) (h : normalizeName n = normalizeName n') :
     pseudoIsElem two n = pseudoIsElem two n' := by
-  simp [pseudoIsElem, normalize_colons, h]
+  simp [pseudoIsElem, normalizeName_colons, h]
+
+/-- **the stored pseudo name survives a round trip**: `New._pseudo` / `New._negation` store `_normalize_name(value)`
+(lower case; a backslash is dropped only before a character that may stand unescaped in an identifier), and that
+value is a fixpoint — written out as it is stored and read back, the same value is stored again. With
+`spec_render` (the item of a pseudo is `normalizeName` of its spelling): re-spelling a pseudo by its stored name
+gives the same item. (Before fix "keep needed backslash escapes in pseudo-class and pseudo-element names" the
+stored name of `a:b\.c` was `:b.c`, which reads back as `:b` + `.c`.) -/
+theorem pseudo_name_stored_is_stable (x : Cps) : normalizeName (normalizeName x) = normalizeName x :=
+  normalizeName_idem x
+
+theorem pseudo_item_respelled_by_stored_name (two : Bool) (n : Cps) :
+    pseudoItem two (normalizeName n) = pseudoItem two n := by
+  simp [pseudoItem, pseudoIsElem, normalizeName_colons, normalizeName_idem]
 
 /-! ## T16.3 — selector lists -/
 
@@ -202,21 +215,35 @@ theorem append_rejected_changes_nothing (l : List SelRec) (ns : NsMap) (toks : L
     (h : parseSel (dictUpdate (listNamespaces l) ns) toks = .ok none) :
     appendSel l ns toks = .ok l := appendSel_none l ns toks h
 
-/-! ## known finding (machine-checked at the witness): `a:b\.c` does not survive a round trip
+/-! ## the former known finding, now positive at its witness
 
-`w1` are the tokens of `a:b\.c`, `w2` the tokens of its serialisation `a:b.c` (their values concatenate to it). -/
-def kfTokens₁ : List Tok := [⟨.ident, [97]⟩, ⟨.char, [58]⟩, ⟨.ident, [98, 92, 46, 99]⟩]
-def kfTokens₂ : List Tok := [⟨.ident, [97]⟩, ⟨.char, [58]⟩, ⟨.ident, [98]⟩, ⟨.char, [46]⟩, ⟨.ident, [99]⟩]
+`kfTokens` are the tokens of `a:b\.c`: the selector is stored with its escape, its serialisation is the
+concatenation of those very token values (so it tokenizes to the same tokens), specificity `(0,0,0,1)`. -/
+def kfTokens : List Tok := [⟨.ident, [97]⟩, ⟨.char, [58]⟩, ⟨.ident, [98, 92, 46, 99]⟩]
 
-theorem known_pseudo_escape_round_trip_fails :
-    (parseSel [] kfTokens₁).toOption.join.map (fun r => (r.b, r.c, r.d, r.text)) = some (0, 0, 1, [97, 58, 98, 46, 99]) ∧
-    kfTokens₂.flatMap (·.val) = [97, 58, 98, 46, 99] ∧
-    (parseSel [] kfTokens₂).toOption.join.map (fun r => (r.b, r.c, r.d)) = some (0, 1, 1) := by
+/-- TEST at the witness of the fixed finding `C16-pseudo-name-escape-dropped` (evaluation, one input) -/
+theorem pseudo_escape_witness_round_trips :
+    (parseSel [] kfTokens).toOption.join.map (fun r => (r.b, r.c, r.d, r.text))
+      = some (0, 0, 1, kfTokens.flatMap (·.val)) := by
+  decide
+
+/-! ## known finding (machine-checked at the witness): `a b\ ` does not survive a round trip
+
+`kfSpace₁` are the tokens of `a b\ ` (the name of the second type selector ends with an escaped space), `kfSpace₂`
+the tokens of its serialisation `ab\ ` (their values concatenate to it): `Out.append` removes the white space of
+the descendant combinator because the next value ends with a space. -/
+def kfSpace₁ : List Tok := [⟨.ident, [97]⟩, ⟨.s, [32]⟩, ⟨.ident, [98, 92, 32]⟩]
+def kfSpace₂ : List Tok := [⟨.ident, [97, 98, 92, 32]⟩]
+
+theorem known_escaped_space_eats_descendant :
+    (parseSel [] kfSpace₁).toOption.join.map (fun r => (r.b, r.c, r.d, r.text)) = some (0, 0, 2, [97, 98, 92, 32]) ∧
+    kfSpace₂.flatMap (·.val) = [97, 98, 92, 32] ∧
+    (parseSel [] kfSpace₂).toOption.join.map (fun r => (r.b, r.c, r.d)) = some (0, 0, 1) := by
   decide
 
 /-! ## non-vacuity: the hypotheses are satisfiable (a rich written selector is `ok`), and a test by evaluation -/
 
-/-- `*|div#i/*x*/.c[ p|href ~='a']:HoVer:N\OT( [|x]):BeFore > p|*:nth-child( 2n + 1 ) ::x(a) /*t*/ ` -/
+/-- `*|div#i/*x*/.c[ p|href ~='a']:HoVer:N\OT( [|x]):not(nth-child(2n)):BeFore > p|*:nth-child( 2n + 1 ) ::x(a) /*t*/ ` -/
 def demo : Sel := {
   lead := [.ws [32]],
   first := {
@@ -227,6 +254,7 @@ def demo : Sel := {
              ([], .pseudo false [72, 111, 86, 101, 114]),
              ([], .not [78, 92, 79, 84, 40] [.ws [32]]
                     (.attr { f1 := [], pfx := .empty, name := [120], f2 := [], opv := none }) []),
+             ([], .not [110, 111, 116, 40] [] (.func false [110, 116, 104, 45, 99, 104, 105, 108, 100, 40] [.dim [50, 110]]) []),
              ([], .pseudo false [66, 101, 70, 111, 114, 101])] },
   more := [(⟨[.ws [32]], some (.child, [.ws [32]])⟩,
             { head := some ⟨.named [112], none⟩,
